@@ -585,3 +585,69 @@ def state_inventory(source_path, roots):
             if tgt and "%s: %s" % (f, tgt) not in pw:
                 pw.append("%s: %s" % (f, tgt))
     return {"module": mod, "param_attr_writes": pw, "reached": sorted(reached)}
+
+
+def dirtext_decoders(api_path, core_path):
+    """Inventory: what each of the three parsers of partition-directory text applies to the raw text BEFORE the typing functions
+    (val_to_num / val_from_meta): api._path_to_cats (labels), core.read_row_group (the codes / cells of the partition columns),
+    api.filter_out_cats (what a filter constant is compared with).  A decoding (percent-unquoting, stripping, case folding ...) present
+    in one and absent in another makes a condition on the label a dataset reports miss exactly its rows.
+    -> {"labels": [...], "cells": [...], "filter": [...]} (names of the functions / methods the text variable is reassigned through,
+    in order), or a value None for a parser whose text variable was not found (fail closed: nothing is claimed for it)."""
+    TYPING = {"val_to_num", "val_from_meta", "_val_to_num"}
+
+    def fn(tree, name):
+        for n in ast.walk(tree):
+            if isinstance(n, ast.FunctionDef) and n.name == name:
+                return n
+        return None
+
+    def reassigns(func, var):
+        out = []
+        for n in ast.walk(func):
+            if isinstance(n, ast.Assign) and len(n.targets) == 1 and isinstance(n.targets[0], ast.Name) and n.targets[0].id == var \
+                    and isinstance(n.value, ast.Call):
+                uses = any(isinstance(x, ast.Name) and x.id == var for x in ast.walk(n.value))
+                f = n.value.func
+                nm = f.id if isinstance(f, ast.Name) else (f.attr if isinstance(f, ast.Attribute) else "?")
+                if uses and nm not in TYPING:
+                    out.append((n.lineno, nm))
+            # a conditional expression around the call: val = f(val) if ... else val
+            if isinstance(n, ast.Assign) and len(n.targets) == 1 and isinstance(n.targets[0], ast.Name) and n.targets[0].id == var \
+                    and isinstance(n.value, ast.IfExp):
+                for c in (n.value.body, n.value.orelse):
+                    if isinstance(c, ast.Call):
+                        f = c.func
+                        nm = f.id if isinstance(f, ast.Name) else (f.attr if isinstance(f, ast.Attribute) else "?")
+                        if nm not in TYPING:
+                            out.append((n.lineno, nm))
+        return [nm for _, nm in sorted(out)]
+
+    def loop_var(func, iter_name, idx):
+        for n in ast.walk(func):
+            if isinstance(n, ast.For) and isinstance(n.iter, ast.Name) and n.iter.id == iter_name and isinstance(n.target, ast.Tuple) \
+                    and len(n.target.elts) == 2 and isinstance(n.target.elts[idx], ast.Name):
+                return n.target.elts[idx].id
+        return None
+
+    api_t = ast.parse(open(api_path).read(), api_path)
+    core_t = ast.parse(open(core_path).read(), core_path)
+    res = {"labels": None, "cells": None, "filter": None}
+    f = fn(api_t, "_path_to_cats")
+    if f is not None:
+        v = loop_var(f, "hivehits", 1)
+        if v:
+            res["labels"] = reassigns(f, v)
+    f = fn(api_t, "filter_out_cats")
+    if f is not None:
+        v = loop_var(f, "pairs", 1)
+        if v:
+            res["filter"] = reassigns(f, v)
+    f = fn(core_t, "read_row_group")
+    if f is not None:
+        for n in ast.walk(f):
+            if isinstance(n, ast.Assign) and len(n.targets) == 1 and isinstance(n.targets[0], ast.Tuple) and len(n.targets[0].elts) == 2 \
+                    and all(isinstance(e, ast.Name) for e in n.targets[0].elts) and isinstance(n.value, ast.Subscript):
+                res["cells"] = reassigns(f, n.targets[0].elts[1].id)
+                break
+    return res
